@@ -55,6 +55,39 @@ impl Clone for Elem {
     }
 }
 
+/// Zero-sized element with an observable destructor (payload 0; destructions are logged like `Elem`'s).
+#[derive(Debug)]
+pub struct ZElem;
+
+impl Drop for ZElem {
+    fn drop(&mut self) {
+        tlog!("drop 0");
+        if rt::logging() {
+            let k = DROPS.fetch_add(1, Ordering::Relaxed);
+            if k == DROPPANIC.load(Ordering::Relaxed) && !std::thread::panicking() {
+                set_track(false);
+                std::panic::panic_any(DropPanic);
+            }
+        }
+    }
+}
+
+impl Payload for ZElem {
+    fn val(&self) -> u64 {
+        0
+    }
+    fn forget(self) {
+        std::mem::forget(self)
+    }
+}
+
+impl Payload for &ZElem {
+    fn val(&self) -> u64 {
+        0
+    }
+    fn forget(self) {}
+}
+
 #[derive(Clone, Copy, Debug)]
 pub struct CElem(pub u64);
 
